@@ -117,3 +117,13 @@ def unsupported_key(head):
     if 'dw' in why:
         return 'depthwise-fed-by-concat'
     return None
+
+
+def raise_kind(r):
+    """Finding-key suffix for a case that raised before any mask was assigned."""
+    e = r.get('construct_error', '')
+    if e.startswith('export() right after import'):
+        return 'export-at-once-raises'
+    if e.startswith('first forward'):
+        return 'first-forward-raises'
+    return 'constructor-raises'
